@@ -40,6 +40,13 @@ impl Disassemble for dr::Operand {
             dr::Operand::MemorySemantics(v) => v.disassemble(),
             dr::Operand::MemoryAccess(v) => v.disassemble(),
             dr::Operand::KernelProfilingInfo(v) => v.disassemble(),
+            dr::Operand::RayFlags(v) => v.disassemble(),
+            dr::Operand::FragmentShadingRate(v) => v.disassemble(),
+            dr::Operand::RawAccessChainOperands(v) => v.disassemble(),
+            dr::Operand::CooperativeMatrixOperands(v) => v.disassemble(),
+            dr::Operand::CooperativeMatrixReduce(v) => v.disassemble(),
+            dr::Operand::TensorAddressingOperands(v) => v.disassemble(),
+            dr::Operand::MatrixMultiplyAccumulateOperands(v) => v.disassemble(),
             _ => format!("{}", self),
         }
     }
